@@ -41,17 +41,22 @@ Section RG.
   Hypothesis Req_nonempty : forall q, Req q -> q <> [].
   Hypothesis Req_names : forall q, Req q -> Forall (fun n => n <> []) q.
   Hypothesis Req_no_marker : forall q p, Req q -> q <> marker p.
-  Hypothesis Req_lower : forall q, Req q -> not_file s1 q.
 
   Definition ghost : Type := gmap path nat.
   Definition cstate : Type := (mstate * gmap path nat)%type.
 
   Definition markok (s0 : mstate) (p : path) : Prop := forall f, s0 !! marker p = Some f -> f_type f = File.
 
+  (** a FILE of the lower layer on a requested path is never visible: it is hidden by its marker, or (once a thread
+      has re-created the path and removed the marker) shadowed by a directory of the write layer *)
+  Definition lowhid (s0 : mstate) (q : path) : Prop :=
+    forall f, s1 !! q = Some f -> f_type f = File -> is_Some (s0 !! marker q) \/ is_dir s0 q.
+
   Definition Inv (σ : cstate) : Prop :=
     wf σ.1 /\
     (forall q, is_Some (σ.2 !! q) -> is_dir σ.1 q /\ Req q) /\
-    (forall q, Req q -> not_file σ.1 q /\ markok σ.1 q).
+    (forall q, Req q -> not_file σ.1 q /\ markok σ.1 q) /\
+    (forall q, Req q -> lowhid σ.1 q).
 
   (** what a step of thread [t] may do *)
   Definition G (t : nat) (σ σ' : cstate) : Prop :=
@@ -234,9 +239,15 @@ Section RG.
   Lemma inv_root (σ : cstate) : Inv σ -> is_dir σ.1 [].
   Proof. intros ((H & _) & _). exact H. Qed.
   Lemma inv_dir (σ : cstate) q : Inv σ -> Req q -> is_Some (σ.1 !! q) -> is_dir σ.1 q.
-  Proof. intros (_ & _ & HR) Hq [f Hf]. exists f. split; [exact Hf|]. apply (HR q Hq). exact Hf. Qed.
-  Lemma lower_dir q : Req q -> is_Some (s1 !! q) -> is_dir s1 q.
-  Proof. intros Hq [f Hf]. exists f. split; [exact Hf|]. apply (Req_lower q Hq). exact Hf. Qed.
+  Proof. intros (_ & _ & HR & _) Hq [f Hf]. exists f. split; [exact Hf|]. apply (HR q Hq). exact Hf. Qed.
+  (** what the lower layer holds on a requested path, with no marker in front of it, is visible as a directory:
+      a directory of the lower layer itself, or - when it is a stale file - the directory that shadows it *)
+  Lemma low_vis (σ : cstate) q : Inv σ -> Req q -> is_Some (s1 !! q) -> σ.1 !! marker q = None -> vis σ q.
+  Proof.
+    intros (_ & _ & _ & HL) Hq [f Hf] Hm. destruct (f_type f) eqn:Et.
+    - destruct (HL q Hq f Hf Et) as [[x Hx]|Hd]; [congruence|left; exact Hd].
+    - right. split; [exact Hm|]. exists f. auto.
+  Qed.
 
   (** ** the base calls *)
   Lemma bh_exists0 s0 q : bhandler (BFs 0 (CExists q)) (S2 s0) = (S2 s0, Ok (bool_decide (is_Some (s0 !! q)))).
@@ -380,7 +391,7 @@ Section RG.
       exists (<[d := nd]> s0). split; [reflexivity|]. cbn [ghost_upd].
       assert (Hdn : is_dir (<[d := nd]> s0) d) by (exists nd; split; [apply lookup_insert|reflexivity]).
       assert (HI' : Inv (<[d := nd]> s0, <[d := t]> gh)).
-      { destruct HI as ((Hroot & Hpc) & Hgh & Hreq). cbn [fst snd] in *. split; [|split].
+      { destruct HI as ((Hroot & Hpc) & Hgh & Hreq & Hlow). cbn [fst snd] in *. split; [|split; [|split]].
         - split; [apply root_dir_insert_ne; auto|]. apply pc_insert_dir; auto.
         - intros q Hq. cbn [fst snd] in *. destruct (decide (q = d)) as [->|Hqd]; [split; auto|].
           rewrite lookup_insert_ne in Hq by congruence. destruct (Hgh q Hq) as [(g & Hg & Hgt) Hrq]. split; [|exact Hrq].
@@ -389,7 +400,10 @@ Section RG.
           + intros g Hg. destruct (decide (q = d)) as [->|Hqd].
             * rewrite lookup_insert in Hg. injection Hg as <-. reflexivity.
             * rewrite lookup_insert_ne in Hg by congruence. eauto.
-          + intros g Hg. rewrite lookup_insert_ne in Hg by (apply Req_no_marker; exact HR). eauto. }
+          + intros g Hg. rewrite lookup_insert_ne in Hg by (apply Req_no_marker; exact HR). eauto.
+        - intros q Hq f Hf Hft. cbn [fst snd] in *. destruct (Hlow q Hq f Hf Hft) as [[x Hx]|(g & Hg & Hgt)].
+          + left. exists x. rewrite lookup_insert_ne by (apply Req_no_marker; exact HR). exact Hx.
+          + right. destruct (decide (q = d)) as [->|Hqd]; [exact Hdn|]. exists g. rewrite lookup_insert_ne by congruence. auto. }
       assert (HG : G t (s0, gh) (<[d := nd]> s0, <[d := t]> gh)).
       { split; [exact HI|]. split; [exact HI'|]. cbn [fst snd]. split; intros q.
         - destruct (decide (q = d)) as [->|Hqd].
@@ -414,17 +428,28 @@ Section RG.
     destruct (R_mine t σ σ' p HRe (conj Ho Hm)) as [Ho' [f Hf]].
     rewrite bh_remove0. cbn [msec_sem]. destruct σ' as [s0 gh]. cbn [fst snd] in *. rewrite Hf.
     assert (Hrp : Req p) by (apply HI; cbn; eauto).
-    assert (Hft : f_type f = File) by (apply (proj2 (proj2 HI) p Hrp) in Hf; exact Hf). rewrite Hft. cbn [fst snd].
+    assert (Hft : f_type f = File) by (apply (proj1 (proj2 (proj2 HI)) p Hrp) in Hf; exact Hf). rewrite Hft. cbn [fst snd].
     exists (delete (marker p) s0). split; [reflexivity|]. cbn [ghost_upd].
     assert (HI' : Inv (delete (marker p) s0, gh)).
-    { destruct HI as ((Hroot & Hpc) & Hgh & Hreq). cbn [fst snd] in *. split; [|split].
+    { destruct HI as ((Hroot & Hpc) & Hgh & Hreq & Hlow). cbn [fst snd] in *. split; [|split; [|split]].
       - split; [apply root_dir_delete; [eapply not_root_of_file; eauto|auto]|].
         apply pc_delete; auto. eapply file_is_leaf; eauto.
       - intros q Hq. cbn [fst snd] in *. destruct (Hgh q Hq) as [(g & Hg & Hgt) Hrq]. split; [|exact Hrq].
         exists g. rewrite lookup_delete_ne; [auto|]. intros <-. congruence.
       - intros q Hq. cbn [fst snd] in *. destruct (Hreq q Hq) as [Hnf Hmk]. split.
         + intros g Hg. apply lookup_delete_Some in Hg as [_ Hg]. eauto.
-        + intros g Hg. apply lookup_delete_Some in Hg as [_ Hg]. eauto. }
+        + intros g Hg. apply lookup_delete_Some in Hg as [_ Hg]. eauto.
+      - (* the marker of p goes: p is a directory of the write layer by now (this thread created it) *)
+        intros q Hq g Hg Hgt. cbn [fst snd] in *.
+        assert (Hpd : is_dir (delete (marker p) s0) p).
+        { destruct (Hgh p) as [(x & Hx & Hxt) _]; [eauto|]. exists x. split; [|exact Hxt].
+          rewrite lookup_delete_ne; [exact Hx|]. intros E. apply (Req_no_marker p p Hrp). congruence. }
+        destruct (decide (q = p)) as [->|Hqp]; [right; exact Hpd|].
+        destruct (Hlow q Hq g Hg Hgt) as [[x Hx]|(x & Hx & Hxt)].
+        + left. exists x. rewrite lookup_delete_ne; [exact Hx|]. intros E. apply Hqp. symmetry.
+          apply (whiteout_path_inj top); [apply Req_names; exact Hrp|apply Req_names; exact Hq|exact E].
+        + right. exists x. split; [|exact Hxt]. rewrite lookup_delete_ne; [exact Hx|].
+          intros E. apply (Req_no_marker q p Hq). congruence. }
     assert (HG : G t (s0, gh) (delete (marker p) s0, gh)).
     { split; [exact HI|]. split; [exact HI'|]. cbn [fst snd]. split; intros q; [|left; reflexivity].
       destruct (decide (q = marker p)) as [->|Hq].
@@ -489,7 +514,7 @@ Section RG.
   Lemma read_path_any (t : nat) p (Q : res (vfs * path) -> cstate -> Prop) (σ : cstate) :
     Inv σ -> Req p ->
     (forall σ', Rany σ σ' -> Inv σ' -> is_dir σ'.1 p -> Q (Ok (v0, p)) σ') ->
-    (forall σ', Rany σ σ' -> Inv σ' -> is_dir s1 p -> σ'.1 !! marker p = None -> Q (Ok (v1, p)) σ') ->
+    (forall σ', Rany σ σ' -> Inv σ' -> is_Some (s1 !! p) -> σ'.1 !! marker p = None -> Q (Ok (v1, p)) σ') ->
     (forall σ', Rany σ σ' -> Inv σ' -> Q (fail ENotFound) σ') ->
     wpi t (read_path top lower p) Q σ.
   Proof.
@@ -503,7 +528,7 @@ Section RG.
     assert (HRac : Rany σ σc).
     { eapply Rany_env; [|exact HRc]. eapply Rany_env; [|exact HRb]. eapply Renv_any; eauto. }
     case_bool_decide as Ec; simp.
-    - apply H1; auto; [apply lower_dir; auto|]. eapply R_nomark; [exact HRc|].
+    - apply H1; auto. eapply R_nomark; [exact HRc|].
       destruct (σb.1 !! marker p) eqn:E; [exfalso; apply Eb; eauto|reflexivity].
     - apply Hn; auto.
   Qed.
@@ -521,8 +546,8 @@ Section RG.
       rewrite bool_decide_eq_true_2 by (destruct Hd' as (d & -> & _); eauto).
       cbn. apply Ht; auto; [eapply Rany_env; eauto|left; exact Hd'].
     - apply wpi_exists1. intros σb HRb HIb.
-      rewrite bool_decide_eq_true_2 by (destruct Hd as (d & -> & _); eauto).
-      cbn. apply Ht; auto; [eapply Rany_env; eauto|]. right. split; [eapply R_nomark; eauto|exact Hd].
+      rewrite bool_decide_eq_true_2 by exact Hd.
+      cbn. apply Ht; auto; [eapply Rany_env; eauto|]. apply low_vis; auto. eapply R_nomark; eauto.
     - cbn. apply Hf; auto.
   Qed.
 
@@ -611,7 +636,9 @@ Definition visible (s0 s1 : mstate) (q : path) : Prop :=
 Theorem ovl_create_dir_all_concurrent (hs : list hstate) (lg : list (nat * fscall)) (ft : option (nat * nat)) (s0 s1 : mstate) (Ps : list path) (sch : list nat) :
   wf s0 ->
   (forall P q, P ∈ Ps -> q ∈ prefixes P ->
-     not_file s0 q /\ not_file s1 q /\ Forall (fun n => n <> []) q /\ head q <> Some whiteout_name /\
+     not_file s0 q /\
+     (forall f, s1 !! q = Some f -> f_type f = File -> is_Some (s0 !! whiteout_path (v0, []) q) \/ is_dir s0 q) /\
+     Forall (fun n => n <> []) q /\ head q <> Some whiteout_name /\
      (forall f, s0 !! whiteout_path (v0, []) q = Some f -> f_type f = File)) ->
   exists s0', fst (prun sch (mstore2 s0 s1 hs lg ft) (map (fun P => vp_create_dir_all ovl P) Ps)) = mstore2 s0' s1 hs lg ft /\
     wf s0' /\
@@ -632,17 +659,18 @@ Proof.
   assert (Hnomarker : forall q p, Req q -> q <> whiteout_path (v0, []) p).
   { intros q p (P & HP & Hq) ->. destruct (Hpre P _ HP Hq) as (_ & _ & _ & Hh & _). apply Hh.
     unfold whiteout_path. destruct (reverse p); reflexivity. }
-  assert (Hlower : forall q, Req q -> not_file s1 q) by (intros q (P & HP & Hq); apply (Hpre P q HP Hq)).
   set (Q := fun (t : nat) (r : res unit) (σ : cstate) =>
               r = Ok tt /\ forall P, Ps !! t = Some P -> Forall (vis s1 σ) (prefixes P)).
-  assert (HI0 : Inv Req (s0, ∅)).
+  assert (HI0 : Inv s1 Req (s0, ∅)).
   { split; [exact Hwf|]. split.
     - intros q [x Hx]. cbn in Hx. rewrite lookup_empty in Hx. discriminate.
-    - intros q (P & HP & Hq). destruct (Hpre P q HP Hq) as (H1 & _ & _ & _ & H5). split; [exact H1|exact H5]. }
+    - split.
+      + intros q (P & HP & Hq). destruct (Hpre P q HP Hq) as (H1 & _ & _ & _ & H5). split; [exact H1|exact H5].
+      + intros q (P & HP & Hq). destruct (Hpre P q HP Hq) as (_ & H2 & _). exact H2. }
   destruct (pool_sound hs lg ft s1 Req Q sch (s0, ∅) (map (fun P => vp_create_dir_all ovl P) Ps) HI0) as (σ' & E & HI' & Hlen & Hsafe).
   { intros t m Hm. rewrite list_lookup_fmap in Hm. destruct (Ps !! t) as [P|] eqn:EP; [|discriminate]. injection Hm as <-.
     exists (s0, ∅). split; [apply rtc_refl|]. unfold vp_create_dir_all.
-    apply (ovl_create_dirs_ok hs lg ft s1 Req Hclosed Hnonempty Hnames Hnomarker Hlower t _ (prefixes P) []).
+    apply (ovl_create_dirs_ok hs lg ft s1 Req Hclosed Hnonempty Hnames Hnomarker t _ (prefixes P) []).
     - pose proof (chain_prefixes_from P 0) as Hc. rewrite Nat.sub_0_r in Hc. exact Hc.
     - apply Forall_forall. intros q Hq. exists P. split; [eapply elem_of_list_lookup_2; eauto|exact Hq].
     - exact HI0.
